@@ -819,7 +819,8 @@ def _contiguity_form(fi, conj):
 
 class Cross(object):
     def __init__(self, key, func, pattern, what, classes=('ConfigError',), loop=None, inline=4, handler=None, optional=False,
-                 recognise=None):
+                 recognise=None, bypass_ok=()):
+        self.bypass_ok = tuple(bypass_ok)   # reviewed early returns (guard patterns) that may precede the check
         self.recognise = recognise  # optional callable(fi, conj) -> MATCH | ('DIFF', text) | None for forms outside the patterns
         self.optional = optional  # a reviewed raise site that is not a cross-option rule of the property (accounted for only)
         self.key = key
@@ -848,7 +849,7 @@ CROSS_RULES = [
     Cross('unknown blacklisted name', MHQ + 'validate_blacklist_whitelist_config', '_F not in default_funcs',
           'a blacklisted name must be a default function', loop='blacklist'),
     Cross('unknown whitelisted name', MHQ + 'validate_blacklist_whitelist_config', '_F not in default_funcs',
-          'a whitelisted name must be a default function', loop='whitelist'),
+          'a whitelisted name must be a default function', loop='whitelist', bypass_ok=['whitelist == [None]']),
     Cross('override warning', MHQ + 'warn_if_override',
           ["set(defaults).intersection(set(config[key])) and not config.get('suppress_warnings', False)",
            "set(config[key]).intersection(set(defaults)) and not config.get('suppress_warnings', False)",
@@ -861,12 +862,12 @@ CROSS_RULES = [
     Cross('answers container type', LGQ + 'schema_answers', 'not isinstance(answers_tuple, tuple)',
           'answers must be a list or a tuple of lists (also enforced by the schema)', optional=True),
     Cross('equal list lengths', LGQ + 'schema_answers', 'len(_L) != len(answers_tuple[0])',
-          'alternative answer lists must have the same length', loop='answers_tuple'),
+          'alternative answer lists must have the same length', loop='answers_tuple', bypass_ok=['isinstance(answers_tuple, list) and not answers_tuple']),
     Cross('answer/subgrader count', LGQ + 'schema_answers',
           "self.subgrader_list and len(self.config['subgraders']) != len(answers_tuple[0])",
-          'a list of subgraders must match the number of answers'),
+          'a list of subgraders must match the number of answers', bypass_ok=['isinstance(answers_tuple, list) and not answers_tuple']),
     Cross('unordered + subgrader list', LGQ + 'schema_answers', "self.subgrader_list and not self.config['ordered']",
-          'unordered lists only with a single subgrader'),
+          'unordered lists only with a single subgrader', bypass_ok=['isinstance(answers_tuple, list) and not answers_tuple']),
     Cross('grouping contiguity', LGQ + 'create_grouping_map',
           ['set(grouping) != set(range(1, max(set(grouping)) + 1))', 'set(grouping) != set(range(1, max(grouping) + 1))'],
           'groups must be numbered 1..n without gaps', recognise=_contiguity_form),
@@ -935,6 +936,122 @@ HOPS = [
 WARN_KEYS = {'variables': 'default_variables', 'numbered_vars': 'default_variables', 'user_constants': 'default_variables',
              'user_functions': 'default_functions'}
 ERROR_BASES = ('ConfigError', 'Invalid', 'MultipleInvalid', 'MITxError')
+
+
+def _bypassing_returns(fi, fcfg, rs):
+    """Return statements that can run without the test of the raise having been evaluated and that do not follow it."""
+    T = None
+    for a in ancestors(rs):
+        if a is fi.node:
+            break
+        if isinstance(a, ast.If):
+            T = a
+            break
+    if T is None:
+        return []
+    tn = [n for n in fcfg.nodes_of(T) if n.kind == 'test'] or fcfg.nodes_of(T)
+    avoid = fcfg.reach([fcfg.entry], blocked=tn)
+    after = fcfg.reach(tn)
+    out = []
+    for R in lib.returns_of(fi.node):
+        rn = fcfg.nodes_of(R)
+        if rn and any(x in avoid for x in rn) and not any(x in after for x in rn):
+            out.append(R)
+    return out
+
+
+def _atoms(conjuncts):
+    """Constraints {expression text: {'truthy': bool} | {'value': literal}} of recognised atoms; None if some atom is not one of
+    `E`, `not E`, `E == literal`, `E is None` (E a name / attribute / constant subscript)."""
+    def is_var(e):
+        while isinstance(e, (ast.Attribute, ast.Subscript)):
+            if isinstance(e, ast.Subscript) and not isinstance(e.slice, ast.Constant):
+                return False
+            e = e.value
+        return isinstance(e, ast.Name)
+    out = []
+    for c in conjuncts:
+        neg = False
+        e = c
+        if isinstance(e, ast.UnaryOp) and isinstance(e.op, ast.Not):
+            e, neg = e.operand, True
+        if is_var(e):
+            out.append((unparse(e), 'truthy', not neg))
+            continue
+        if isinstance(e, ast.Compare) and len(e.ops) == 1 and not neg:
+            l, rgt = e.left, e.comparators[0]
+            if is_var(rgt) and not is_var(l):
+                l, rgt = rgt, l
+            if is_var(l):
+                try:
+                    val = ast.literal_eval(rgt)
+                except (ValueError, SyntaxError, TypeError):
+                    return None
+                if isinstance(e.ops[0], (ast.Eq, ast.Is)):
+                    out.append((unparse(l), 'value', val))
+                    continue
+                if isinstance(e.ops[0], (ast.NotEq, ast.IsNot)):
+                    out.append((unparse(l), 'not-value', val))
+                    continue
+        return None
+    return out
+
+
+def _compatible(atoms):
+    """Is there an assignment satisfying all atoms?  (values decide truthiness; everything else is free)"""
+    state = {}
+    for key, kind, v in atoms:
+        st = state.setdefault(key, {})
+        if kind == 'truthy':
+            if 'truthy' in st and st['truthy'] != v:
+                return False
+            st['truthy'] = v
+        elif kind == 'value':
+            if 'value' in st and st['value'] != v:
+                return False
+            st['value'] = v
+            t = bool(v)
+            if 'truthy' in st and st['truthy'] != t:
+                return False
+            st['truthy'] = t
+        else:
+            st.setdefault('not', []).append(v)
+    for st in state.values():
+        if 'value' in st and any(st['value'] == n for n in st.get('not', [])):
+            return False
+    return True
+
+
+def _judge_bypass(c, fi, R, conj):
+    """('ok'|'violation'|'undecided', return stmt, guard text, witness text) for an early return that precedes a cross-rule check."""
+    gs = guards_of(R, fi.node)
+    gtext = ' and '.join(unparse(g) for g in gs) or 'always'
+    gconj = gs[0] if len(gs) == 1 else (ast.BoolOp(op=ast.And(), values=list(gs)) if gs else None)
+    if gconj is not None and any(nf.classify(p_, gconj) == nf.MATCH for p_ in c.bypass_ok):
+        return ('ok', R, gtext, '')
+    ca = _atoms(nf.conjuncts(conj))
+    if ca is None and c.loop is not None and '_' not in c.loop.replace('self.', '').split('[')[0][:1] and not c.loop.startswith('_'):
+        # a per-element check inside `for x in IT`: it applies whenever IT is non-empty (the elements are free)
+        ca = [(c.loop, 'truthy', True)]
+    ga = _atoms(gs)
+    if ca is None or ga is None:
+        return ('undecided', R, gtext, '')
+    if not _compatible(ca + ga):
+        return ('ok', R, gtext, '')
+    wit = []
+    seen = set()
+    for key, kind, v in ga + ca:
+        if key in seen:
+            continue
+        seen.add(key)
+        vals = [x for x in ga + ca if x[0] == key]
+        fixed = [x[2] for x in vals if x[1] == 'value']
+        if fixed:
+            wit.append('%s = %r' % (key, fixed[0]))
+        else:
+            truth = [x[2] for x in vals if x[1] == 'truthy']
+            wit.append('%s %s' % (key, 'non-empty' if (truth and truth[0]) else 'empty/false'))
+    return ('violation', R, gtext, ', '.join(wit))
 
 
 def _expand_quantifiers(guards, loops):
@@ -1077,6 +1194,21 @@ def d5_cross(ctx, idx, fam):
                     if not nodes or not ocfg.reaches([ocfg.entry], nodes):
                         r.violation(construct, "the raise site that enforces '%s' is unreachable: a configuration that breaks the rule is "
                                     "accepted" % c.what, where)
+                        continue
+                    byp = _bypassing_returns(owner, ocfg, rs)
+                    verdicts = [_judge_bypass(c, owner, R, conj) for R in byp] if conj is not None else []
+                    bad = [v for v in verdicts if v[0] == 'violation']
+                    und = [v for v in verdicts if v[0] == 'undecided']
+                    if bad:
+                        r.violation(construct, "the check for '%s' can be bypassed: `return` at line %d runs before it when %s, and that "
+                                    "is compatible with the rule's condition `%s` (for instance %s): such a contradictory configuration is "
+                                    "accepted by this validator instead of raising a configuration error here"
+                                    % (c.what, bad[0][1].lineno, bad[0][2], short(conj), bad[0][3]), lib.loc(owner, bad[0][1]),
+                                    expected='the check precedes every exit it applies to')
+                        continue
+                    if und:
+                        r.undecided(construct, 'an unreviewed early return (line %d, when %s) precedes the check' % (und[0][1].lineno, und[0][2]),
+                                    lib.loc(owner, und[0][1]))
                         continue
                     r.ok(construct, 'raises %s when %s' % (cls, short(conj) if conj is not None else 'parsing fails'), where)
                 elif diffs and not c.optional:
@@ -1938,6 +2070,11 @@ MUTANTS = [
     Mutant('intervalgrader-kwargs-only', IVF, "use_config = dict(config if config else kwargs)", "use_config = dict(kwargs)", 'D4'),
     Mutant('listgrader-init-skips-super', LG, "        super(ListGrader, self).__init__(config, **kwargs)\n", "        self.config = dict(config or kwargs)\n", 'D4'),
     Mutant('whitelist-blacklist-check-removed', MH, "    if blacklist and whitelist:\n        raise ConfigError(\"Cannot whitelist and blacklist at the same time\")\n", "", 'D5'),
+    Mutant('seeded-C20e-both-lists-check-after-early-return', MH,
+           "    if blacklist and whitelist:\n        raise ConfigError(\"Cannot whitelist and blacklist at the same time\")\n    for func in blacklist:\n        # no need to check user_functions too ... if you don't want student to\n        # use one of the user_functions, just don't add it in the first place.\n        if func not in default_funcs:\n            raise ConfigError(\"Unknown function in blacklist: {func}\".format(func=func))\n\n    if whitelist == [None]:\n        return\n",
+           "    for func in blacklist:\n        if func not in default_funcs:\n            raise ConfigError(\"Unknown function in blacklist: {func}\".format(func=func))\n\n    if whitelist == [None]:\n        return\n\n    if blacklist and whitelist:\n        raise ConfigError(\"Cannot whitelist and blacklist at the same time\")\n", 'D5'),
+    Mutant('early-return-before-both-lists-check', MH, "    if blacklist and whitelist:\n        raise ConfigError(\"Cannot whitelist and blacklist at the same time\")\n",
+           "    if len(blacklist) == 1 or blacklist == ['sin']:\n        pass\n    if blacklist == ['sin']:\n        return\n    if blacklist and whitelist:\n        raise ConfigError(\"Cannot whitelist and blacklist at the same time\")\n", 'D5'),
     Mutant('whitelist-blacklist-or', MH, "    if blacklist and whitelist:\n        raise ConfigError", "    if blacklist or whitelist:\n        raise ConfigError", 'D5'),
     Mutant('unordered-check-removed', LG, "            if not self.config['ordered']:\n                raise ConfigError('Cannot use unordered lists with multiple graders')\n", "", 'D5'),
     Mutant('contiguity-unreachable', LG, "        if not group_nums == set(range(1, max(group_nums) + 1)):", "        if False:", 'D5'),
@@ -2027,6 +2164,11 @@ BENIGN = [
            "import abc\n\nclass _AttemptCredit(ObjectWithSchema):\n    @abc.abstractmethod\n    def _raw_credit(self, attempt):\n        pass\n\nclass LinearCredit(_AttemptCredit):"),
     Benign('contiguity-sorted-list', LG, "        if not group_nums == set(range(1, max(group_nums) + 1)):",
            "        if sorted(group_nums) != list(range(1, len(group_nums) + 1)):"),
+    Benign('both-lists-check-after-blacklist-loop', MH,
+           "    if blacklist and whitelist:\n        raise ConfigError(\"Cannot whitelist and blacklist at the same time\")\n    for func in blacklist:\n        # no need to check user_functions too ... if you don't want student to\n        # use one of the user_functions, just don't add it in the first place.\n        if func not in default_funcs:\n            raise ConfigError(\"Unknown function in blacklist: {func}\".format(func=func))\n",
+           "    for func in blacklist:\n        if func not in default_funcs:\n            raise ConfigError(\"Unknown function in blacklist: {func}\".format(func=func))\n    if blacklist and whitelist:\n        raise ConfigError(\"Cannot whitelist and blacklist at the same time\")\n"),
+    Benign('early-return-for-empty-lists', MH, "    if blacklist and whitelist:\n        raise ConfigError(\"Cannot whitelist and blacklist at the same time\")\n",
+           "    if not blacklist and not whitelist:\n        return\n    if blacklist and whitelist:\n        raise ConfigError(\"Cannot whitelist and blacklist at the same time\")\n"),
     Benign('log-in-init', BASE, "        # Validate the configuration\n        self.config = self.validate_config(use_config)",
            "        _n = len(use_config) if isinstance(use_config, dict) else 0\n        self.config = self.validate_config(use_config)"),
 ]
